@@ -14,7 +14,7 @@ struct nv_ibase { struct nv_ids* m_dataset; };          /* base_dataset_iterator
 struct nv_bufs { uint64_t n; };                         /* std::vector<tensorNd_t>: one buffer per thread */
 struct nv_cache { int64_t rows; };                      /* tensor4d_t / tensor2d_t: the cache of scaled batches */
 struct nv_tit { struct nv_ids* m_dataset; struct nv_isamples m_samples; int64_t m_batch; uint8_t m_scaling; struct nv_cache m_targets; struct nv_sid m_targets_stats; struct nv_bufs m_targets_buffers; };   /* targets_iterator_t (with its base) */
-struct nv_fit { struct nv_tit base; struct nv_sid m_flatten_stats; struct nv_bufs m_flatten_buffers; };                     /* flatten_iterator_t */
+struct nv_fit { struct nv_tit base; struct nv_cache m_flatten; struct nv_sid m_flatten_stats; struct nv_bufs m_flatten_buffers; };                     /* flatten_iterator_t */
 /* scalar_stats_t::scale(scaling, data) (contracts: stats.h, wrap.h): records which statistics scaled which data with which mode */
 int64_t nv_sc_calls; uint64_t nv_sc_stats, nv_sc_data; uint8_t nv_sc_mode;
 static void nv_sid_scale(const struct nv_sid* s, uint8_t scaling, struct nv_data data)
@@ -54,4 +54,11 @@ __CPROVER_requires(NV_TIT_FRESH(self) && __CPROVER_is_fresh(dataset, sizeof(*dat
 /* (the base sub-object base_dataset_iterator_t{dataset}, a reference to the dataset, is not modelled) */ \
 __CPROVER_ensures(self->m_samples.id == samples.id && self->m_scaling == NVE_scaling_type_none) \
 __CPROVER_ensures(self->m_targets_stats.id == (dataset->target_valid ? NV_STATS_OF(2, dataset->id, samples.id) : 0))
+/* flatten_iterator_t{dataset, samples}: the base is constructed over the same (dataset, samples); the flatten statistics are those of
+ * these samples of this dataset */
+#define NV_CONTRACT_it_ctor_flatten \
+__CPROVER_requires(NV_FIT_FRESH(self) && __CPROVER_is_fresh(dataset, sizeof(*dataset))) __CPROVER_assigns(*self) \
+__CPROVER_ensures(self->base.m_samples.id == samples.id && self->base.m_scaling == NVE_scaling_type_none) \
+__CPROVER_ensures(self->base.m_targets_stats.id == (dataset->target_valid ? NV_STATS_OF(2, dataset->id, samples.id) : 0)) \
+__CPROVER_ensures(self->m_flatten_stats.id == NV_STATS_OF(1, dataset->id, samples.id))
 #endif
